@@ -251,6 +251,14 @@ def shapes(tier):
     for alt1, alt2 in [(['"a"', "_"], ["_", "[2, ..]"]), (["_", "[1, ..]"], ['"b"', "_"]), (['"a" | "b"', "[]"], ['"c"', "[_]"]), (["_", "_"], ['"a"', "[1]"])]:
         add(["string", "vec"], [alt1, alt2])
         add(["newtype", "slice"], [alt1, alt2])
+    # disjunctive form with a guard over a binding present in every alternative: the guard applies
+    # to each alternative
+    for g in GUARDS_U8:
+        for l1, l2 in [("0", "1"), ("1", "3"), ("0 | 1", "2")]:
+            add(["u8", "u8"], [[l1, "{b}"], [l2, "{b}"]], g.replace("{b}", "b0_1"))
+            add(["u8", "u8"], [["{b}", l1], ["{b}", l2]], g.replace("{b}", "b0_0"))
+            add(["u8", "u8"], [[l1, "{b}"], [l2, "{b}"], ["3", "{b}"]], g.replace("{b}", "b0_1"))
+        add(["u8", "u8", "u8"], [["0", "{b}", "eq!(&1)"], ["1", "{b}", "ne!(&1)"]], g.replace("{b}", "b0_1"))
     # disjunctive form with a guard, and three alternatives (documented syntax)
     add(["u8", "u8"], [["{b}", "_"], ["_", "1"]], "true")
     # (the documentation shows `matching!((1, 2) | (3, 4) | (5, 6))`: these must be accepted)
